@@ -78,6 +78,7 @@ func GenParams(t *rapid.T, seedTag string) sim.Params {
 	p.Evidence.MinVotesRequired = int64(rapid.IntRange(1, int(p.Evidence.BlockVotesDiff)).Draw(t, "mvr"))
 	p.Evidence.ValidatorReleaseTime = int64(rapid.SampledFrom([]int{0, 0, 1}).Draw(t, "reltime"))
 	p.Evidence.PenaltyBasePercentage = int64(rapid.SampledFrom([]int{30, 10, 33}).Draw(t, "penpct"))
+	p.NoDelegOptions = u.N(5, "nodelegopt") == 0
 	p.PropFundingDL = int64(u.Range(2, 8, "fdl"))
 	p.PropVotingDL = int64(u.Range(2, 8, "vdl"))
 	p.PropPassPct = rapid.SampledFrom([]int{51, 67, 80}).Draw(t, "pass")
